@@ -9,7 +9,8 @@ H = '/verif/vf/pysym/h_c09.py'
 
 def run(rep, tier, only=None):
     snapshot.activate()
-    T = 120 if tier == 'quick' else 900
+    T = 300 if tier == 'quick' else 900
+    TS = 60 if tier == 'quick' else 450        # the unbounded searches are expected to stay inconclusive
     rep.functions += ['Cython/Compiler/ExprNodes.py: make_dedup_key (with real IntNode/FloatNode/BoolNode/NoneNode/TupleNode objects)',
                       'Cython/Compiler/Optimize.py: ConstantFolding (visit_BinopNode, _calculate_const, literal promotion) via binop_node',
                       'Cython/Compiler/Code.py: GlobalState.new_num_const_cname; Cython/Utils.py: str_to_number']
@@ -22,6 +23,6 @@ def run(rep, tier, only=None):
     rep.assume('CrossHair models int as mathematical integers and float precisely enough to find sign-of-zero counterexamples; every counterexample is replayed concretely',
                'the scanner removes underscores from numeric literals before they reach the constant tables')
     runner.run_twin(rep, H, 'twin', 60)
-    runner.run_conditions(rep, H, [Cond('dedup_cls_%d_%d' % (k, sh), T) for k in range(4) for sh in range(3)] + [Cond('dedup_flat', T // 2, mandatory=False), Cond('dedup_nested', T // 2, mandatory=False), Cond('fold_bool', T), Cond('cnames_distinct', T * 2),
-                                   Cond('fold_int', T, mandatory=False), Cond('fold_float', T, mandatory=False)])
+    runner.run_conditions(rep, H, [Cond('dedup_cls_%d_%d' % (k, sh), T) for k in range(4) for sh in range(3)] + [Cond('dedup_flat', TS, mandatory=False), Cond('dedup_nested', TS, mandatory=False), Cond('fold_bool', T), Cond('cnames_distinct', T * 2),
+                                   Cond('fold_int', TS * 2, mandatory=False), Cond('fold_float', TS * 2, mandatory=False)])
     rep.sample(dict(condition='dedup_flat', inputs='kinds k1,k2 in {int,float,bool,None}, i1,i2:int, f1,f2:float', oracle='distinguishable()'))
